@@ -28,7 +28,7 @@ BUILTIN_ANNS = [('Om1', 'Omitted', ('alpha',)), ('Om2', 'Omitted', ('beta',)), (
 
 def doc_menu(model, ns_name, owner=None, own_field=None):
     """Valid doc strings at a site (reference: lang_ref.rst 'Documentation')."""
-    out = ['Plain doc.', 'Two\nlines here.\n\nAnd a paragraph with "quotes" and a \\ backslash.',
+    out = ['Plain doc about this namespace.', 'Two\nlines here.\n\nAnd a paragraph with "quotes" and a \\ backslash.',
            'A link :link:`Stone Repo https://github.com/dropbox/stone` and :val:`null`, :val:`"s"`, :val:`-1.5`.']
     for r in visible_refs(model, ns_name):
         tgt = mm.resolve(model, ns_name, r)
